@@ -26,6 +26,11 @@ CLAIMED["C05"] = (
  "Decides that on both proxies the firewall's error edge cannot reach the call that forwards the packet before the next packet is read and that the client is answered, that every handleQueryPacket verdict is propagated to the loop, that AcraCensor.HandleQuery returns handler errors as is / stops on the first allow / rejects unparseable statements unless tolerated, that Allow/Deny consult all three rule kinds and DenyAll/AllowAll are constant, that no pending-response entry is queued for an unsent statement, and that every field-by-field pattern matcher can answer 'match'. Verdict invariance under formatting and pattern-language semantics depend on the parser and are not decided.",
  NOTE, "DESIGN.md §2 C05")
 
+CLAIMED["C09"] = (
+ "static analysis: backward provenance over go/ssa for every blind-index computation (key and hashed value), sibling rule over the two dialect rewriters, difference-constraint proof of the two-sided placeholder range check, factory wiring order rule",
+ "Decides the structural necessary conditions of equality search: every GenerateHMAC call outside the hmac library is keyed by GetHMACSecretKey(...) and, where its input may already be an envelope, hashes the decrypted plaintext; both dialect rewriters take the substring length from hmac.GetDefaultHashSize(), which is the default hash size plus the id byte; the placeholder index recorded by both OnBind handlers is proven 0 <= i < len(values); the HMAC processor is subscribed on both sides of the container detector in both proxy factories. That equal plaintexts give equal prefixes (determinism of HMAC) and that the database compares the prefixes as intended are runtime facts and are not decided.",
+ NOTE, "DESIGN.md §2 C09")
+
 CLAIMED["C14"] = (
  "static analysis: demand-driven difference-constraint prover (ABCD style) over go/ssa with dominating-branch facts, callee summaries and closed-world caller guards, applied to every slice/index/allocation whose bound derives from a length field, a subtraction or a lossy conversion in the input-facing decoders; bounded-allocation rule; goroutine recovery rule; no-panic scan; decoder state rule",
  "Decides for each of ~90 bound uses in the envelope, wire-protocol, token and codec decoders that the bound is proven in range from the conditions that dominate it (or is in the frozen, reasoned confirmed-table), that every input-sized allocation has a bound the sender does not control alone, that AcraServer's connection goroutines defer recoverConnection before running connection code, and that the decoders contain no explicit panic. Not decided: termination and memory of the SQL parser, scanner loop invariants (covered by the cursor-step rule of C01), invariants carried by struct fields (e.g. non-empty MySQL payloads), YAML/ASN.1 library internals.",
